@@ -287,7 +287,14 @@ fn check_unused_defines(
             0,
             &hierarchy);
 
-        if let None = maybe_decl
+        // Only constants take their value from the command line:
+        // a define that names a label or a function is unused as well
+        let names_constant = maybe_decl.map_or(false, |decl_ref|
+            matches!(
+                decls.symbols.get(decl_ref).kind,
+                util::SymbolKind::Constant));
+
+        if !names_constant
         {
             report.error(
                 format!(
